@@ -81,7 +81,7 @@ Proof.
   destruct g as [|e|sx]; [|inversion H; subst; exact H1|inversion H; subst; exact H1].
   destruct (fa_fill ffuel r1) as [r2 fr] eqn:E2.
   pose proof (fa_fill_ss _ _ _ _ E2) as H2.
-  destruct fr as [k|k|]; [|inversion H; subst; unfold ss in *; cbn [src set_st] in *; congruence|inversion H; subst; congruence].
+  destruct fr as [k|k|]; [|inversion H; subst; unfold ss in *; cbn [src set_st set_buf] in *; congruence|inversion H; subst; congruence].
   destruct (fa_search r2) as [r3 sr] eqn:E3.
   pose proof (fa_search_ss _ _ _ E3) as H3.
   destruct sr as [[|]|sx]; [inversion H; subst; congruence| |inversion H; subst; congruence].
